@@ -44,7 +44,11 @@ def cases(draw: Any, tier: str) -> dict:
                     elif k == "svc":
                         steps.append({"op": "svc"})
                     else:
-                        steps.append({"op": "td", "pass_exc": k == "td_exc", "nested": d.pct(25)})
+                        step = {"op": "td", "pass_exc": k == "td_exc", "nested": d.pct(25)}
+                        if k == "td" and d.pct(35):
+                            # the callback comes with a resource; sometimes a callable whose truth value is False
+                            step["via"] = d.pick(["resource", "resource", "resource_falsy"])
+                        steps.append(step)
                 c[ph] = steps
             else:
                 c[ph] = None
@@ -138,7 +142,7 @@ class Interp:
                     self.harness_exc = leaf
 
     def build(self) -> type:
-        from asphalt.core import CLIApplicationComponent, Component, add_teardown_callback, start_service_task
+        from asphalt.core import CLIApplicationComponent, Component, add_resource, add_teardown_callback, start_service_task
 
         case = self.case
         comps = case["comps"]
@@ -165,6 +169,10 @@ class Interp:
                         interp.registered.append(mark + "+late")  # (runs after its registrar: listed first)
                     if st_.get("pass_exc"):
                         add_teardown_callback(lambda exc, cb=cb: cb(exc), pass_exception=True)
+                    elif st_.get("via"):
+                        extra = {"__len__": lambda self: 0} if st_["via"] == "resource_falsy" else {}
+                        obj = type("ResourceCleanup", (), {"__call__": lambda self, cb=cb: cb(), **extra})()
+                        add_resource(mark, "r" + name.replace(":", "_"), teardown_callback=obj)
                     else:
                         add_teardown_callback(cb)
                     interp.registered.append(mark)
